@@ -36,7 +36,9 @@ func (c *CreateAclsResponse) decode(pd packetDecoder, version int16) (err error)
 		return err
 	}
 
-	c.AclCreationResponses = make([]*AclCreationResponse, n)
+	if n >= 0 {
+		c.AclCreationResponses = make([]*AclCreationResponse, n)
+	}
 	for i := 0; i < n; i++ {
 		c.AclCreationResponses[i] = new(AclCreationResponse)
 		if err := c.AclCreationResponses[i].decode(pd, version); err != nil {
